@@ -140,6 +140,7 @@ func short(r model.Result) string {
 }
 
 func run(t interface{ Fatalf(string, ...any) }, c *Case) {
+	defer fix.Track(prop, "history", c, c.Summary())()
 	st, err := oracle(c)
 	cl := []string{"cap:" + capClass(c.Open.CacheCap), fmt.Sprintf("preload:%v", c.Open.Preload)}
 	kinds := map[string]bool{}
